@@ -968,6 +968,9 @@ Lemma refcount_exact ops s :
      exists al, lookup (st_heap s) a = Some al).
 Proof. intros B E. destruct (reach ops s B E) as [SI A]. apply refcount_inv. exact SI. Qed.
 
+Lemma refcount_no_underflow ops : short ops -> impl_run init ops <> None.
+Proof. intros B. destruct (intern_refines ops B) as (s & E & _). congruence. Qed.
+
 (** non-vacuity: a history exercising every operation, within the bound *)
 Definition demo_ops : list op :=
   [OInternStr [97%N]; OInternBytes [97%N]; OClone 0; OCastBytes 0; OCastStr 1; OHandover;
